@@ -648,6 +648,90 @@ impl Sut for St {
     }
 }
 
+/// Tridiagonal<Complex<f64>> with rows and right-hand side scaled by powers of two up to 2^+-480: T = diag(rho) T0 (T0 over
+/// small Gaussian integers), r = tau diag(rho) T0 x*. Pivots scale with their row, so the zero-pivot pattern is that of T0
+/// (decided in exact Gaussian rationals): solution tau x* exactly known, or a zero-pivot panic
+fn complex_scaled_space(ctx: &Ctx, n: usize, nl: usize) {
+    let letters = [Cmplx::new(0., 0.), Cmplx::new(1., 0.), Cmplx::new(0., 1.), Cmplx::new(-1., 1.), Cmplx::new(0., -2.)];
+    let lq = [model::CQ::new(r(0), r(0)), model::CQ::new(r(1), r(0)), model::CQ::new(r(0), r(1)), model::CQ::new(r(-1), r(1)), model::CQ::new(r(0), r(-2))];
+    let rhos = [2f64.powi(-480), 2f64.powi(-340), 1.0, 2f64.powi(342), 2f64.powi(480)];
+    let taus = [2f64.powi(-400), 1.0, 2f64.powi(400)];
+    let k = 3 * n - 2;
+    let per = pow(rhos.len() as u64, n as u32) * taus.len() as u64;
+    let xstar: Vec<Cmplx> = [Cmplx::new(1.0, 0.0), Cmplx::new(0.0, 1.0), Cmplx::new(-2.0, 1.0)][..n].to_vec();
+    let xq = [model::CQ::new(r(1), r(0)), model::CQ::new(r(0), r(1)), model::CQ::new(r(-2), r(1))];
+    ctx.lattice(
+        &format!("Complex<f64> n={} over {} letters x row scales {{2^-480,2^-340,1,2^342,2^480}}^{} x solution scales {{2^-400,1,2^400}}: solve or zero-pivot panic", n, nl, n),
+        pow(nl as u64, k as u32) * per,
+        |idx| format!("diagonals#{} scales#{}", idx / per, idx % per),
+        |idx, acc| {
+            let mut d = vec![0usize; k];
+            digits_uniform(idx / per, nl as u64, &mut d);
+            let mut rd = vec![0usize; n];
+            digits_uniform((idx % per) / taus.len() as u64, rhos.len() as u64, &mut rd);
+            let tau = taus[(idx % taus.len() as u64) as usize];
+            let (sq, mq, pq): (Vec<model::CQ>, Vec<model::CQ>, Vec<model::CQ>) = (d[..n - 1].iter().map(|&i| lq[i]).collect(), d[n - 1..2 * n - 1].iter().map(|&i| lq[i]).collect(), d[2 * n - 1..].iter().map(|&i| lq[i]).collect());
+            // exact Thomas elimination: where does a zero pivot arise?
+            let mut zero_pivot = mq[0].is_zero();
+            if !zero_pivot {
+                let mut beta = mq[0];
+                for j in 1..n {
+                    let gamma = pq[j - 1].div(beta);
+                    beta = mq[j].sub(sq[j - 1].mul(gamma));
+                    if beta.is_zero() {
+                        zero_pivot = true;
+                        break;
+                    }
+                }
+            }
+            let sc = |z: Cmplx, s: f64| Cmplx::new(z.real * s, z.imag * s);
+            // row i of T holds sub[i-1], main[i], sup[i]
+            let sub: Vec<Cmplx> = (0..n - 1).map(|i| sc(letters[d[i]], rhos[rd[i + 1]])).collect();
+            let main: Vec<Cmplx> = (0..n).map(|i| sc(letters[d[n - 1 + i]], rhos[rd[i]])).collect();
+            let sup: Vec<Cmplx> = (0..n - 1).map(|i| sc(letters[d[2 * n - 1 + i]], rhos[rd[i]])).collect();
+            let mut rhs = vec![];
+            for i in 0..n {
+                let mut s = mq[i].mul(xq[i]);
+                if i > 0 {
+                    s = s.add(sq[i - 1].mul(xq[i - 1]));
+                }
+                if i + 1 < n {
+                    s = s.add(pq[i].mul(xq[i + 1]));
+                }
+                rhs.push(Cmplx::new(s.re.to_f64() * rhos[rd[i]] * tau, s.im.to_f64() * rhos[rd[i]] * tau));
+            }
+            let key = || format!("complex scaled n={} sub={:?} main={:?} sup={:?} tau={:e}", n, sub, main, sup, tau);
+            if rd.iter().any(|&q| q != 2) || tau != 1.0 {
+                acc.nontriv("tridiagonal system with a scale beyond 2^+-340");
+            }
+            let t = Tridiagonal::with_vecs(sub.clone(), main.clone(), sup.clone());
+            let got = catch(|| t.solve(&Vector::create(rhs.clone())));
+            match (zero_pivot, got) {
+                (true, Err(msg)) => {
+                    acc.nontriv("zero pivot refused");
+                    if !msg.to_lowercase().contains("zero") {
+                        acc.fail(idx, key(), format!("zero pivot, but the panic message is {:?}", msg));
+                    }
+                }
+                (true, Ok(x)) => acc.fail(idx, key(), format!("a zero pivot arises but solve returned {:?}", x.vec)),
+                (false, Err(msg)) => acc.fail(idx, key(), format!("no zero pivot arises but solve panicked: {}", msg)),
+                (false, Ok(x)) => {
+                    let mut err = 0.0f64;
+                    let mut finite = true;
+                    for j in 0..n {
+                        let (re, im) = (x[j].real / tau, x[j].imag / tau);
+                        finite &= re.is_finite() && im.is_finite();
+                        err = err.max((re - xstar[j].real).abs()).max((im - xstar[j].imag).abs());
+                    }
+                    if !finite || !(err <= 1e-10) {
+                        acc.fail(idx, key(), format!("x / tau = {:?} but the solution is {:?}", x.vec.iter().map(|z| (z.real / tau, z.imag / tau)).collect::<Vec<_>>(), xstar));
+                    }
+                }
+            }
+        },
+    );
+}
+
 fn main() {
     let ctx = Ctx::from_args("C05");
     ctx.level("model_checking");
@@ -676,6 +760,9 @@ fn main() {
     );
     f64_space(&ctx, ctx.pick(12, 40));
     complex_space(&ctx);
+    complex_scaled_space(&ctx, 1, 5);
+    complex_scaled_space(&ctx, 2, 5);
+    complex_scaled_space(&ctx, 3, ctx.pick(3, 4));
     if ctx.thorough() {
         exhaustive(&ctx, 5, vec![r(0), r(1), r(-1), r(2)]);
         exhaustive(&ctx, 6, vec![r(0), r(1), r(-1)]);
@@ -693,12 +780,12 @@ fn main() {
         crosscheck_stateright(&ctx, "tridiagonal histories n<=3", inits.clone(), depth);
     }
     explore_replayed(&ctx, "clone-free histories on one Tridiagonal<Rat>", inits, BfsOpts { max_depth: ctx.pick(4, 5), state_cap: 2_000_000 });
-    // Known findings: (1) Tridiagonal<Complex<f64>>::solve with a pivot beyond |z| ~ 1e154 (unscaled complex division, see C01);
-    // (2) the three-term determinant recurrence forms sub * sup first, which over- / underflows for entries 2^+-600 although the
+    // (1) Tridiagonal<Complex<f64>>::solve with a pivot beyond |z| ~ 1e154 / below 1e-162 (unscaled complex division, see C01):
+    // repaired by 8d587e4, demanded now. Known findings: (2) the three-term determinant recurrence forms sub * sup first, which over- / underflows for entries 2^+-600 although the
     // determinant (and the dense twin's value) is representable.
     {
-        ctx.known_cases(
-            "listed inputs: tridiagonal matrices with entries of extreme magnitude",
+        ctx.listed_cases(
+            "listed inputs: Tridiagonal<Complex<f64>> with entries of extreme magnitude (bug-hunt inputs, repaired by 8d587e4)",
             vec![
                 ("extreme-complex tridiagonal (2e160) x = (2e160)".to_string(), Box::new(|| {
                     let t = Tridiagonal::with_vecs(vec![], vec![Cmplx::new(2e160, 0.0)], vec![]);
@@ -706,12 +793,46 @@ fn main() {
                     ensure!((x[0].real - 1.0).abs() <= 1e-12 && x[0].imag == 0.0, "x = {:?} but the solution is 1", x.vec);
                     Ok(())
                 })),
+                ("extreme-complex tridiagonal (2^-600) x = (2^-600)".to_string(), Box::new(|| {
+                    let p = 2f64.powi(-600);
+                    let t = Tridiagonal::with_vecs(vec![], vec![Cmplx::new(p, 0.0)], vec![]);
+                    let x = t.solve(&Vector::create(vec![Cmplx::new(p, 0.0)]));
+                    ensure!(x[0].real == 1.0 && x[0].imag == 0.0, "x = {:?} but the solution is 1", x.vec);
+                    Ok(())
+                })),
+                ("extreme-complex tridiagonal 2^-600 [[2,1],[1,2]] x = 2^-600 (3,3)".to_string(), Box::new(|| {
+                    let p = 2f64.powi(-600);
+                    let z = |v: f64| Cmplx::new(v * p, 0.0);
+                    let t = Tridiagonal::with_vecs(vec![z(1.0)], vec![z(2.0), z(2.0)], vec![z(1.0)]);
+                    let x = t.solve(&Vector::create(vec![z(3.0), z(3.0)]));
+                    ensure!((x[0].real - 1.0).abs() <= 1e-14 && (x[1].real - 1.0).abs() <= 1e-14 && x[0].imag == 0.0 && x[1].imag == 0.0, "x = {:?} but the solution is (1, 1)", x.vec);
+                    Ok(())
+                })),
+                ("extreme-complex tridiagonal (1e120 i) x = (1e200 i)".to_string(), Box::new(|| {
+                    let t = Tridiagonal::with_vecs(vec![], vec![Cmplx::new(0.0, 1e120)], vec![]);
+                    let x = t.solve(&Vector::create(vec![Cmplx::new(0.0, 1e200)]));
+                    ensure!((x[0].real / 1e80 - 1.0).abs() <= 1e-14 && x[0].imag == 0.0, "x = {:?} but the solution is 1e80", x.vec);
+                    Ok(())
+                })),
+            ],
+        );
+        ctx.known_cases(
+            "listed inputs: Tridiagonal<f64> with entries of extreme magnitude",
+            vec![
                 ("extreme-f64 tridiagonal det sub=[1,2^-600] main=[2^600,2^-600,1] sup=[1,2^-600]".to_string(), Box::new(|| {
                     let p = 2f64.powi(600);
                     let t = Tridiagonal::with_vecs(vec![1.0, 1.0 / p], vec![p, 1.0 / p, 1.0], vec![1.0, 1.0 / p]);
                     let d = t.det();
                     let dense = t.convert().determinant();
                     ensure!(d == -1.0 / p, "det() = {:e} but the determinant is -2^-600 (the dense twin gives {:e})", d, dense);
+                    Ok(())
+                })),
+                ("extreme-f64 tridiagonal solve main=[1e200,1] sup=[1e-150] r=[2e150,1e300]".to_string(), Box::new(|| {
+                    // strictly row dominant, upper triangular: x = (1e-50, 1e300)
+                    let t = Tridiagonal::<f64>::with_vecs(vec![0.0], vec![1e200, 1.0], vec![1e-150]);
+                    let x = t.solve(&Vector::create(vec![2e150, 1e300]));
+                    let x0: f64 = x[0];
+                    ensure!((x0 / 1e-50 - 1.0).abs() <= 1e-12 && x[1] == 1e300, "x = {:?} but the solution is (1e-50, 1e300)", x.vec);
                     Ok(())
                 })),
             ],
